@@ -21,7 +21,7 @@ CLAIMED = {
          'Ignore patterns non-nullable with distinct first characters; oracle 2 only for Backtrack-free grammars.'),
  'C05': ('PBT: hypothesis grammars with let / class members / parameters / where / |> / <| / symbolic counts; reference interpreter with functional environments',
          'Generated-input search: grammars from a scope-aware recursive generator (generated rules, classes with plain/let/pass/requires members, generated templates, a template library) plus rule families built to rebind one name several times within one parse (abandoned alternative, iterations, recursive and sibling invocations, lookahead, class recursion) are run through every parameterless rule and class on all inputs of length <= 4 over {a,b,1,2} and random longer ones, and compared with a reference interpreter whose environments are immutable dicts (an abandoned branch cannot leak).',
-         'Shadow-then-read is excluded by construction (known finding F24, witness replayed); inline Python from a closed language.'),
+         'Inline Python from a closed language the oracle can evaluate; shadowing incl. shadow-then-read is in the domain since F24/F30 were repaired.'),
  'C06': ('PBT: hypothesis template/call-site generator (text+bytes, named+unnamed); reference interpreter with thunks + AST-level expansion compiled by sourcer',
          'Generated-input search: a 14-template library (value, parser, mixed, recursive, forwarding, capturing, class templates), generated templates and call sites with literal, rule-name, compound (capturing 0-2 call-site names), inline-Python, earlier-result (str/int/list/dict/tuple/None/instance), positional, keyword and nested arguments, plus families instantiating one template twice at one position with swapped / nested-different arguments; each grammar with and without a grammar header. Oracle 1: reference interpreter (no memo, thunks closed over the caller environment). Oracle 2: every non-recursive call expanded on the AST (alpha-renamed body, parser arguments substituted, value arguments let-bound, class templates specialised) and compiled by sourcer itself must agree.',
          'F11 and F12 excluded by construction (known findings, witnesses replayed); inputs <= 4 exhaustive over {a,b,1,2} + random <= 8.'),
